@@ -73,10 +73,25 @@ def pairs(draw):
     return dict(kind="pair", a=a, b=b)
 
 
+@st.composite
+def manual_boards(draw):
+    """Hand-made boards of several rows for the manual entry point: the largest reward and the down-only
+    tile (which the name reports as force_down) can sit anywhere on the board."""
+    length, width = draw(st.integers(1, 4)), draw(st.integers(1, 4))
+    pool = draw(st.sampled_from(((0, 1, 2, 3, 4, 5, 9, 10, 11), (0, 0.5, 1.25, 2.5, 4.75, 7.0, 12.125), (0, 1, 2, 99, 100, 1000))))
+    rewards = [[draw(st.sampled_from(pool)) for _ in range(width)] for _ in range(length)]
+    moves = [[draw(st.integers(0, 2)) for _ in range(width)] for _ in range(length)]
+    if draw(st.booleans()):
+        moves[draw(st.integers(0, length - 1))][draw(st.integers(0, width - 1))] = 3
+    loose = [[draw(st.integers(0, 1)) for _ in range(width)] for _ in range(length)]
+    return dict(kind="manual", params=dict(rb=draw(PCT), lb=draw(PCT), tb=draw(PCT), board=[moves, rewards, loose]))
+
+
 def phases(tier):
     return [Phase("whole-percent-sweep", enum=sweep, exhaustive=True,
                   note="k = 1..99 for each probability via main(), prob_to_str and the manual entry point"),
-            Phase("parameter-pairs", strategy=pairs, examples=(250, 15000))]
+            Phase("parameter-pairs", strategy=pairs, examples=(250, 15000)),
+            Phase("hand-made-boards", strategy=manual_boards, examples=(250, 8000))]
 
 
 def inexact(k):
@@ -137,16 +152,25 @@ def check_case(case):
     elif case["kind"] == "manual":
         p = case["params"]
         v.cls("manual_entry_point")
-        fd = p["force_down"]
-        moves = [[3 if fd else 1, 0]]
+        if "board" in p:
+            moves, rewards, loose = p["board"]
+            fd = any(m == 3 for row in moves for m in row)
+            top = max(x for row in rewards for x in row)
+            v.cls("manual_board_generated")
+            if max(max(rewards)) != top:
+                v.cls("largest_reward_outside_the_lexicographically_largest_row")
+        else:
+            fd = p["force_down"]
+            moves, top = [[3 if fd else 1, 0]], p.get("top_reward", 4)
+            rewards, loose = [[top, 2]], [[0, 1]]
         d = boards.clean_scratch()
         cwd = os.getcwd()
         os.chdir(d)
         try:
             try:
-                top = p.get("top_reward", 4)
                 r.stochastic_game_from_roborta_board.create_sg_from_board(
-                    moves, [[top, 2]], [[0, 1]], p["rb"] / 100, p["lb"] / 100, p["tb"] / 100)
+                    [list(row) for row in moves], [list(row) for row in rewards], [list(row) for row in loose],
+                    p["rb"] / 100, p["lb"] / 100, p["tb"] / 100)
             except Exception as e:
                 v.fail("generator-raises", f"create_sg_from_board: {type(e).__name__}: {e}", sig=type(e).__name__)
                 return v
@@ -159,7 +183,7 @@ def check_case(case):
         m = MANUAL.match(files[0])
         got = dict(width=int(m[1]), length=int(m[2]), max_reward=float(m[3]), rb=int(m[4]), lb=int(m[5]), tb=int(m[6]),
                    force_down=bool(m[7]))
-        want = dict(width=2, length=1, max_reward=float(p.get("top_reward", 4)), rb=p["rb"], lb=p["lb"], tb=p["tb"],
+        want = dict(width=len(moves[0]), length=len(moves), max_reward=float(top), rb=p["rb"], lb=p["lb"], tb=p["tb"],
                     force_down=fd)
         bad = {f: (want[f], got[f]) for f in want if want[f] != got[f]}
         if bad:
